@@ -723,6 +723,10 @@ def install2(I):
     def tile(ctx, a, reps):
         ctx.assumed_ext.add("numpy.tile(v, (k, 1)): k rows, each a copy of v; .T transposes; outer(a, b)[i, j] = a[i]*b[j]")
         a = as_narr(I, ctx, a)
+        if isinstance(reps, (int, Sym)) and not isinstance(reps, bool):
+            ctx.assumed_ext.add("numpy.tile(v, k): v repeated k times, element i is v[i mod len(v)]")
+            k, n = B.zint(reps), zn(a)
+            return NArr(smt.simp(n * k), lambda i: a.elem(smt.simp(z3.If(k == 1, B._z(i), B._z(i) % n))), a.dtype, "tile1")
         reps = I.iterate(ctx, reps)
         if len(reps) != 2 or reps[1] != 1:
             raise Unsupported("numpy.tile with reps other than (k, 1)")
